@@ -21,7 +21,15 @@ tvars == <<c, l, bad, seen>>
 
 MaxBad == 20
 
+BigMismatch(e) ==
+   LET d == [ty |-> e.ty, kind |-> e.kind, cnt |-> e.cnt, present |-> e.present, elem |-> e.elem, pre |-> e.pre, post |-> e.post, j |-> e.j] IN
+   IF e.b # <<>> /\ e.b # Expand(d) THEN "the driver's expansion of the descriptor is not Expand"
+   ELSE IF e.len # (IF e.b # <<>> THEN Len(e.b) ELSE e.len) THEN "length"
+   ELSE IF e.d.acc # BigAccept(d, FALSE) THEN "big input: DecodeBytes and the design layer disagree"
+   ELSE IF e.u.acc # BigAccept(d, FALSE) THEN "big input: unlimited stream and the design layer disagree"
+   ELSE ""
 Mismatch(e) ==
+   IF e.ev = "big" /\ e.pan = "" THEN BigMismatch(e) ELSE
    IF e.ev \notin {"dec", "rt"} \/ e.pan # "" THEN "" ELSE
    LET s == Schema(e.ty)
        d == ParseFirst(e.b)
